@@ -40,6 +40,7 @@ from explorerscript.ssb_converting.ssb_special_ops import (
     SsbLabelJump,
     SwitchStart,
     OPS_THAT_END_CONTROL_FLOW,
+    OP_JUMP,
     OP_SWITCH_DUNGEON_MODE,
 )
 from explorerscript.ssb_converting.util import Blk
@@ -120,9 +121,12 @@ class SwitchWriteHandler(AbstractWriteHandler):
                             ):
                                 root_op_before = self._get_root_op(handler.last_vertex)
                                 assert handler.last_handler_in_block is not None
+                                # (A Jump at the end of the block that was not written as `jump @label;` leads to
+                                # the end of the switch: nothing was written for it, that is what `break;` is for.)
                                 if not handler.last_handler_in_block.ended_on_jump and (
                                     root_op_before is None
                                     or root_op_before.op_code.name not in OPS_THAT_END_CONTROL_FLOW
+                                    or root_op_before.op_code.name == OP_JUMP
                                 ):
                                     self.decompiler.write_stmnt("break;")
 
